@@ -38,7 +38,9 @@ def gen_singleop(seed, n_per_op, only=None):
     for oi, name in enumerate(names):
         made = 0
         attempt = 0
-        while made < n_per_op and attempt < n_per_op * 6:
+        # Operators with a large attribute x type grid get proportionally more cases.
+        want = n_per_op * int(OPS[name].get("cases", 1))
+        while made < want and attempt < want * 6:
             attempt += 1
             rng = Rng((seed * 1000003 + oi) * 100003 + attempt)
             opset = 20 if name == "Gelu" else rng.choose([13, 17, 17, 18, 21]) if name not in ("Gelu",) else 20
